@@ -19,13 +19,35 @@
 #include <stdexcept>
 #include <string>
 
-#include "xtl/xany.hpp"
+#if defined(C19_ONLY)
+#define C19_HAVE(k) ((k) == C19_ONLY)
+#else
+#define C19_HAVE(k) 1
+#endif
+
+// a single-scenario build (-DC19_ONLY=k) includes only the header(s) of that scenario, so that a build failure is
+// attributed to the right header
+#if C19_HAVE(0) || C19_HAVE(1) || C19_HAVE(2) || C19_HAVE(3) || C19_HAVE(4) || C19_HAVE(5)
 #include "xtl/xbasic_fixed_string.hpp"
-#include "xtl/xdynamic_bitset.hpp"
-#include "xtl/xmultimethods.hpp"
-#include "xtl/xspan.hpp"
+#endif
+#if C19_HAVE(6) || C19_HAVE(7)
+#include "xtl/xany.hpp"
+#endif
+#if C19_HAVE(8) || C19_HAVE(9)
 #include "xtl/xvariant.hpp"
+#endif
+#if C19_HAVE(10) || C19_HAVE(11) || C19_HAVE(12)
+#include "xtl/xdynamic_bitset.hpp"
+#endif
+#if C19_HAVE(13) || C19_HAVE(14)
+#include "xtl/xmultimethods.hpp"
+#endif
+#if C19_HAVE(15)
 #include "xtl/xvisitor.hpp"
+#endif
+#if C19_HAVE(16)
+#include "xtl/xspan.hpp"
+#endif
 
 #if defined(__cpp_exceptions) || defined(__EXCEPTIONS)
 #define C19_EXC 1
@@ -37,10 +59,13 @@ namespace c19
 {
     volatile unsigned long long sink = 0;
 
+#if C19_HAVE(0) || C19_HAVE(1) || C19_HAVE(2) || C19_HAVE(3) || C19_HAVE(4) || C19_HAVE(5)
     // the length checks are a policy of the fixed string; the default policy (silent_error) documents no error path
     typedef xtl::xbasic_fixed_string<char, 4, xtl::buffer | xtl::store_size, xtl::string_policy::throwing_error> fs4;
     typedef xtl::xbasic_fixed_string<char, 16, xtl::buffer | xtl::store_size, xtl::string_policy::throwing_error> fs16;
+#endif
 
+#if C19_HAVE(13) || C19_HAVE(14)
     // ---- multimethod fixtures
     struct shape
     {
@@ -56,7 +81,9 @@ namespace c19
         XTL_IMPLEMENT_INDEXABLE_CLASS()
     };
     inline int circle_square(circle&, square&) { return 7; }
+#endif
 
+#if C19_HAVE(15)
     // ---- visitor fixtures
     struct node : xtl::base_visitable<int, false, xtl::throwing_catch_all>
     {
@@ -73,6 +100,7 @@ namespace c19
     {
         int visit(leaf_known&) override { return 1; }
     };
+#endif
 
     template <class F>
     int run_case(const char* name, F f)
@@ -86,8 +114,12 @@ namespace c19
         }
         catch (const std::length_error&) { std::printf("CAUGHT std::length_error\n"); return 0; }
         catch (const std::out_of_range&) { std::printf("CAUGHT std::out_of_range\n"); return 0; }
+#if C19_HAVE(6) || C19_HAVE(7)
         catch (const xtl::bad_any_cast&) { std::printf("CAUGHT xtl::bad_any_cast\n"); return 0; }
+#endif
+#if C19_HAVE(8) || C19_HAVE(9)
         catch (const xtl::bad_variant_access&) { std::printf("CAUGHT xtl::bad_variant_access\n"); return 0; }
+#endif
         catch (const std::runtime_error&) { std::printf("CAUGHT std::runtime_error\n"); return 0; }
         catch (const std::exception&) { std::printf("CAUGHT std::exception\n"); return 0; }
         catch (...) { std::printf("CAUGHT unknown\n"); return 0; }
@@ -99,12 +131,6 @@ namespace c19
         return 0;
     }
 }
-
-#if defined(C19_ONLY)
-#define C19_HAVE(k) ((k) == C19_ONLY)
-#else
-#define C19_HAVE(k) 1
-#endif
 
 #define C19_CASES(X)                                                        \
     X(0, "fixed_string/ctor-too-long", "std::length_error")                 \
